@@ -592,3 +592,72 @@ def names_in_term(body, term):
         if n:
             out.add(n)
     return out
+
+
+# ---------------------------------------------------------------------------
+# typestate flow: forward exploration of (block, state) with constant-flag pruning
+# ---------------------------------------------------------------------------
+
+def flow_states(body, facts, init, on_call, on_edge, max_configs=200000):
+    """Forward typestate exploration.  Configurations are (block, state, env)
+    where env holds the bool locals assigned a constant on the path (the
+    lowering of `matches!`, `&&`, `||` sets a temporary to true/false and
+    switches on it right after: following only the feasible edge keeps the
+    analysis path-sensitive for exactly those flags).
+
+    on_call(bb, terminator, state) -> state after the call returns normally
+    on_edge(bb, label, (term, value) | None, state) -> state on that switch edge
+
+    Returns {bb: set of states at block entry}; None if the configuration
+    budget is exhausted (callers must treat that as undecided)."""
+    bf = BranchFacts(body, facts)
+    at = {}
+    seen = set()
+    work = [(0, init, frozenset())]
+    n = 0
+    while work:
+        bb, st, envf = work.pop()
+        if (bb, st, envf) in seen:
+            continue
+        seen.add((bb, st, envf))
+        n += 1
+        if n > max_configs:
+            return None
+        at.setdefault(bb, set()).add(st)
+        env = dict(envf)
+        blk = body.blocks[bb]
+        for s in blk["s"]:
+            if s[0] == "=" and len(s[1]) == 1:
+                rv = s[2]
+                if rv[0] == "use" and rv[1][0] == "k" and rv[1][1] == "bool" and rv[1][2] in (0, 1, True, False):
+                    env[s[1][0]] = 1 if rv[1][2] in (1, True) else 0
+                else:
+                    env.pop(s[1][0], None)
+            elif s[0] == "=" and s[1]:
+                env.pop(s[1][0], None)
+        t = blk["t"]
+        if t["k"] == "call":
+            if t.get("dest"):
+                env.pop(t["dest"][0], None)
+            # a call taking `&mut flag` could change it: forget flags whose address was taken is not
+            # tracked; flags are compiler temporaries, never borrowed
+            if t.get("t") is not None:
+                work.append((t["t"], on_call(bb, t, st), frozenset(env.items())))
+            continue
+        if t["k"] == "switch":
+            ef = bf.edge_facts(bb)
+            known = None
+            d = t["d"]
+            if t["ty"] == "bool" and d[0] in ("c", "m") and len(d[1]) == 1 and d[1][0] in env:
+                known = env[d[1][0]]
+            listed = [v for v, _ in t["v"]]
+            for s, lab in body.succs(bb):
+                if known is not None:
+                    takes = (lab == ("v", known)) or (lab == ("o",) and known not in listed)
+                    if not takes:
+                        continue
+                work.append((s, on_edge(bb, lab, ef.get(lab), st), frozenset(env.items())))
+            continue
+        for s, lab in body.succs(bb):
+            work.append((s, st, frozenset(env.items())))
+    return at
